@@ -148,7 +148,7 @@ func (c20) Gen(r *core.Rng, tier string, idx int) *core.Trace {
 		total += sz
 	}
 	// sparse files: one extent per run, so the extent tree needs leaf blocks (>4) and interior nodes (>4 x 84 for 1 KiB blocks, >4 x 340 for 4 KiB)
-	nfrag := []int64{0, 3, 5, 90, 400, 1400}[r.PickW(20, 15, 20, 20, 15, 10)]
+	nfrag := []int64{0, 3, 5, 90, 400, 1400, 4, 2, 300, 1200}[r.PickW(18, 10, 15, 15, 12, 8, 10, 4, 4, 4)] // (4: the extent node in the inode exactly full; 300 / 1200: four leaf blocks below it with 1 KiB / 4 KiB blocks)
 	if tier == "quick" && nfrag > 400 {
 		nfrag = 400
 	}
